@@ -103,8 +103,8 @@ Definition echo_handler (s : side) (method body : bytes) (meta : list kv) : byte
   (str "re:" ++ body, (str "echo", method) :: meta, status_zero).
 
 Definition reg_md5 : registry := [md5_filter md5 "m"%byte].
-Definition cfg_locked : config := mkCfg true reg_md5 1048576 echo_handler.
-Definition cfg_nolock : config := mkCfg false reg_md5 1048576 echo_handler.
+Definition cfg_locked : config := mkCfg true true reg_md5 1048576 echo_handler.
+Definition cfg_nolock : config := mkCfg false true reg_md5 1048576 echo_handler.
 
 Lemma reg_md5_inverts : forall g, In g reg_md5 -> inverts g.
 Proof. intros g [<-|[]]. apply md5_inverts. apply md5_length. Qed.
@@ -181,9 +181,9 @@ Qed.
 Definition wrap_first : list event := [ECall SA (str "/m/old") (str "old-args") [] x73 []].
 Definition wrap_rest (st : state) : list event :=
   [ECall SA (str "/m/new") (str "new-args") [] x73 [];
-   ELock SA 1 [frame_at st SA 0]; EWrite SA 0; EUnlock SA; ERecv SB].
+   ELock SA 1 [frame_at st SA 0]; EWrite SA 0; EUnlock SA 0; ERecv SB].
 Definition wrap_reply (st : state) : list event :=
-  [ELock SB 0 [frame_at st SB 0]; EWrite SB 0; EUnlock SB; ERecv SA].
+  [ELock SB 0 [frame_at st SB 0]; EWrite SB 0; EUnlock SB 0; ERecv SA].
 
 Definition wrap_final : option state :=
   match run cfg_locked init wrap_first with
@@ -236,14 +236,14 @@ Definition good_final : option state :=
   | Some st1 =>
       match run_sane cfg_locked st1
               [ELock SA 1 (halves st1 SA 1); EWrite SA 0; ELock SB 0 (whole st1 SB 0);
-               EWrite SB 0; EWrite SA 0; EUnlock SA; ELock SA 0 (whole st1 SA 0);
-               EWrite SA 0; ERecv SB; ERecv SB; EUnlock SA; EUnlock SB; ERecv SA] with
+               EWrite SB 0; EWrite SA 0; EUnlock SA 0; ELock SA 0 (whole st1 SA 0);
+               EWrite SA 0; ERecv SB; ERecv SB; EUnlock SA 0; EUnlock SB 0; ERecv SA] with
       | Some st2 =>
           (* B's handlers hold replies for call one (index 1) and call two (index 0):
              the reply of call two goes first *)
           run_sane cfg_locked st2
-            [ELock SB 0 (halves st2 SB 0); EWrite SB 0; EWrite SB 0; EUnlock SB;
-             ELock SB 0 (whole st2 SB 1); EWrite SB 0; ERecv SA; EUnlock SB; ERecv SA]
+            [ELock SB 0 (halves st2 SB 0); EWrite SB 0; EWrite SB 0; EUnlock SB 0;
+             ELock SB 0 (whole st2 SB 1); EWrite SB 0; ERecv SA; EUnlock SB 0; ERecv SA]
       | None => None
       end
   | None => None
@@ -269,15 +269,15 @@ Proof.
   match type of R1 with reach _ ?s1 =>
     destruct (run_sane cfg_locked s1
               [ELock SA 1 (halves s1 SA 1); EWrite SA 0; ELock SB 0 (whole s1 SB 0);
-               EWrite SB 0; EWrite SA 0; EUnlock SA; ELock SA 0 (whole s1 SA 0);
-               EWrite SA 0; ERecv SB; ERecv SB; EUnlock SA; EUnlock SB; ERecv SA]) as [st2|] eqn:E2 end;
+               EWrite SB 0; EWrite SA 0; EUnlock SA 0; ELock SA 0 (whole s1 SA 0);
+               EWrite SA 0; ERecv SB; ERecv SB; EUnlock SA 0; EUnlock SB 0; ERecv SA]) as [st2|] eqn:E2 end;
     [|vm_compute in E2; discriminate].
   assert (R2 : reach cfg_locked st2) by (eapply run_sane_reach; [exact R1 | exact E2]).
   vm_compute in E2. inversion E2; subst st2. clear E2 R1.
   match type of R2 with reach _ ?s2 =>
     destruct (run_sane cfg_locked s2
-            [ELock SB 0 (halves s2 SB 0); EWrite SB 0; EWrite SB 0; EUnlock SB;
-             ELock SB 0 (whole s2 SB 1); EWrite SB 0; ERecv SA; EUnlock SB; ERecv SA]) as [st3|] eqn:E3 end;
+            [ELock SB 0 (halves s2 SB 0); EWrite SB 0; EWrite SB 0; EUnlock SB 0;
+             ELock SB 0 (whole s2 SB 1); EWrite SB 0; ERecv SA; EUnlock SB 0; ERecv SA]) as [st3|] eqn:E3 end;
     [|vm_compute in E3; discriminate].
   assert (R3 : reach cfg_locked st3) by (eapply run_sane_reach; [exact R2 | exact E3]).
   exists st3. split; [exact R3|].
@@ -329,16 +329,59 @@ Proof.
   match type of R1 with reach1 _ ?s1 =>
     destruct (run_sane1 cfg_nolock s1
               [ELock SA 1 (whole s1 SA 1); ELock SA 0 (whole s1 SA 0); EWrite SA 0; EWrite SA 0;
-               EUnlock SA; EUnlock SA; ERecv SB; ERecv SB]) as [st2|] eqn:E2 end;
+               EUnlock SA 0; EUnlock SA 0; ERecv SB; ERecv SB]) as [st2|] eqn:E2 end;
     [|vm_compute in E2; discriminate].
   assert (R2 : reach1 cfg_nolock st2) by (eapply run_sane1_reach; [exact R1 | exact E2]).
   vm_compute in E2. inversion E2; subst st2. clear E2 R1.
   match type of R2 with reach1 _ ?s2 =>
     destruct (run_sane1 cfg_nolock s2
               [ELock SB 0 (whole s2 SB 0); ELock SB 0 (whole s2 SB 1); EWrite SB 1; EWrite SB 0;
-               EUnlock SB; EUnlock SB; ERecv SA; ERecv SA]) as [st3|] eqn:E3 end;
+               EUnlock SB 0; EUnlock SB 0; ERecv SA; ERecv SA]) as [st3|] eqn:E3 end;
     [|vm_compute in E3; discriminate].
   assert (R3 : reach1 cfg_nolock st3) by (eapply run_sane1_reach; [exact R2 | exact E3]).
   exists st3. split; [exact R3|].
   vm_compute in E3. inversion E3; subst st3. clear. vm_compute. repeat split; reflexivity.
 Qed.
+
+(* ---- 5. the call's own mutex released right after the Store (instead of when AsyncCall
+        returns): the handler REFUSES the call, the reply is read and handled while the caller
+        is still between its Write and its return, the caller then assigns the status of its
+        successful write: the refused call is complete with an OK status ---- *)
+Definition refusing_handler (s : side) (method body : bytes) (meta : list kv) : bytes * list kv * status :=
+  if bytes_eqb method (str "/m/refuse")
+  then ([], meta, mkStatus 403 (str "refused") None)
+  else (str "re:" ++ body, meta, status_zero).
+
+Definition cfg_early : config := mkCfg true false reg_md5 1048576 refusing_handler.
+Definition cfg_held : config := mkCfg true true reg_md5 1048576 refusing_handler.
+
+Definition early_trace : list event :=
+  let issue := [ECall SA (str "/m/refuse") (str "please") [(str "k", str "1")] x73 []] in
+  match run cfg_early init issue with
+  | Some st1 =>
+      let pre := issue ++ [ELock SA 0 [frame_at st1 SA 0]; EWrite SA 0; ERecv SB] in
+      match run cfg_early init pre with
+      | Some st2 =>
+          pre ++ [ELock SB 0 [frame_at st2 SB 0]; EWrite SB 0; EUnlock SB 0;
+                  ERecv SA;        (* the refusal completes the call ... *)
+                  EUnlock SA 0]    (* ... and the returning caller overwrites its status *)
+      | None => []
+      end
+  | None => []
+  end.
+
+Lemma early_unlock_overwrites :
+  exists st, reach_any cfg_early st /\
+    exists c stt b mt, In (c, RReply stt b mt) (e_done (ep_of st SA)) /\ st_code stt = 0%Z /\
+      status_ok (snd (cf_handler cfg_early SB (c_method c) (c_args c) (c_meta c))) = false.
+Proof.
+  destruct (run cfg_early init early_trace) as [st|] eqn:E; [|vm_compute in E; discriminate].
+  exists st. split; [eapply run_reach_any; [apply reach_any_init | exact E]|].
+  vm_compute in E. inversion E; subst st. clear E.
+  do 4 eexists. split; [left; reflexivity|]. split; reflexivity.
+Qed.
+
+(* with the mutex held until AsyncCall returns, the reply waits: that schedule is refused at
+   [ERecv SA], and goes through when the caller returns first *)
+Lemma held_mutex_blocks_reply : run cfg_held init early_trace = None.
+Proof. vm_compute. reflexivity. Qed.
